@@ -1,0 +1,261 @@
+//! Verification hooks, compiled only with `--cfg truc_verif_hooks` (never in a normal build).
+//!
+//! A per-byte ownership shadow of the record buffer: which bytes currently hold a value, of which
+//! type, and whether that value has drop glue. The four storage primitives update and check it;
+//! anomalies are collected in a thread-local list that a simulator drains. The hooks never panic
+//! and never change what the primitives do.
+
+use std::cell::RefCell;
+
+const UNOWNED: u8 = 0;
+const START: u8 = 1;
+const CONT: u8 = 2;
+const MOVED: u8 = 3;
+
+const ZST_SLOTS: usize = 16;
+
+/// Alignment-neutral (arrays of bytes only) so that the data stay at offset 0 of the record.
+#[derive(Clone, Copy)]
+pub struct Shadow<const CAP: usize> {
+    state: [u8; CAP],
+    tag: [u8; CAP],
+    droppy: [u8; CAP],
+    // zero-size values with drop glue occupy no byte and several of them may share an offset:
+    // (offset lo, offset hi, tag, number of values stored)
+    zst: [[u8; 4]; ZST_SLOTS],
+}
+
+#[derive(Clone, Debug, PartialEq, Eq)]
+pub struct Anomaly {
+    pub kind: &'static str,
+    pub detail: String,
+}
+
+#[derive(Clone, Copy, Debug, Default, PartialEq, Eq)]
+pub struct Counters {
+    pub reads: u64,
+    pub writes: u64,
+    pub refs: u64,
+    pub zst_accesses: u64,
+    pub stores_to_misaligned_destination: u64,
+    pub buffers_dropped: u64,
+}
+
+thread_local! {
+    static ANOMALIES: RefCell<Vec<Anomaly>> = const { RefCell::new(Vec::new()) };
+    static COUNTERS: RefCell<Counters> = const { RefCell::new(Counters { reads: 0, writes: 0, refs: 0, zst_accesses: 0, stores_to_misaligned_destination: 0, buffers_dropped: 0 }) };
+}
+
+fn report(kind: &'static str, detail: String) {
+    ANOMALIES.with(|a| {
+        let mut a = a.borrow_mut();
+        if a.len() < 64 {
+            a.push(Anomaly { kind, detail });
+        }
+    });
+}
+
+/// Anomalies seen on this thread since the last call.
+pub fn take_anomalies() -> Vec<Anomaly> {
+    ANOMALIES.with(|a| std::mem::take(&mut *a.borrow_mut()))
+}
+
+pub fn counters() -> Counters {
+    COUNTERS.with(|c| *c.borrow())
+}
+
+fn count(f: impl FnOnce(&mut Counters)) {
+    COUNTERS.with(|c| f(&mut c.borrow_mut()));
+}
+
+fn tag_of<T>() -> u8 {
+    let mut h: u32 = 0x811c_9dc5;
+    for b in std::any::type_name::<T>().bytes() {
+        h = (h ^ b as u32).wrapping_mul(0x0100_0193);
+    }
+    (h ^ (h >> 8) ^ (h >> 16) ^ (h >> 24)) as u8
+}
+
+impl<const CAP: usize> Shadow<CAP> {
+    pub fn new() -> Self {
+        Shadow { state: [UNOWNED; CAP], tag: [0; CAP], droppy: [0; CAP], zst: [[0; 4]; ZST_SLOTS] }
+    }
+
+    fn in_bounds<T>(&self, what: &'static str, offset: usize) -> bool {
+        let size = std::mem::size_of::<T>();
+        if offset.checked_add(size).map_or(true, |end| end > CAP) {
+            report("out-of-bounds", format!("{} of {} ({} bytes) at offset {} of a buffer of capacity {}", what, std::any::type_name::<T>(), size, offset, CAP));
+            false
+        } else {
+            true
+        }
+    }
+
+    fn zst_slot(&mut self, offset: usize, tag: u8) -> Option<&mut [u8; 4]> {
+        let key = [(offset & 0xff) as u8, ((offset >> 8) & 0xff) as u8];
+        let mut free = None;
+        for (i, s) in self.zst.iter().enumerate() {
+            if s[3] != 0 && s[0] == key[0] && s[1] == key[1] && s[2] == tag {
+                return self.zst.get_mut(i);
+            }
+            if s[3] == 0 && free.is_none() {
+                free = Some(i);
+            }
+        }
+        let i = free?;
+        self.zst[i] = [key[0], key[1], tag, 0];
+        self.zst.get_mut(i)
+    }
+
+    /// is a value of type `T` stored at `offset`?
+    fn holds<T>(&self, offset: usize) -> Result<(), String> {
+        let size = std::mem::size_of::<T>();
+        let tag = tag_of::<T>();
+        if self.state[offset] != START {
+            return Err(format!("byte {} is {}", offset, state_name(self.state[offset])));
+        }
+        if self.tag[offset] != tag {
+            return Err(format!("the value stored at offset {} has another type", offset));
+        }
+        for i in offset + 1..offset + size {
+            if self.state[i] != CONT {
+                return Err(format!("byte {} is {}", i, state_name(self.state[i])));
+            }
+        }
+        if offset + size < CAP && self.state[offset + size] == CONT {
+            return Err(format!("the value stored at offset {} is larger than {} bytes", offset, size));
+        }
+        Ok(())
+    }
+
+    pub fn on_write<T>(&mut self, offset: usize, addr: usize) {
+        count(|c| c.writes += 1);
+        if !self.in_bounds::<T>("store", offset) {
+            return;
+        }
+        let size = std::mem::size_of::<T>();
+        let tag = tag_of::<T>();
+        let droppy = std::mem::needs_drop::<T>();
+        if addr % std::mem::align_of::<T>() != 0 {
+            // legal as long as the store does not require alignment (decided by the interpreter arm)
+            count(|c| c.stores_to_misaligned_destination += 1);
+        }
+        if size == 0 {
+            count(|c| c.zst_accesses += 1);
+            if droppy {
+                // several zero-size data may share an offset: only the number stored is tracked
+                if let Some(s) = self.zst_slot(offset, tag) {
+                    s[3] = s[3].saturating_add(1);
+                }
+            }
+            return;
+        }
+        for i in offset..offset + size {
+            if (self.state[i] == START || self.state[i] == CONT) && self.droppy[i] != 0 {
+                report("store-onto-owned-value", format!("store of {} at offset {} lands on byte {} of a droppable value the record still owns", std::any::type_name::<T>(), offset, i));
+                break;
+            }
+        }
+        // a value that only partly survives is no value any more
+        let mut i = offset + size;
+        while i < CAP && self.state[i] == CONT {
+            self.state[i] = UNOWNED;
+            i += 1;
+        }
+        if self.state[offset] == CONT {
+            let mut j = offset;
+            while j > 0 && self.state[j] == CONT {
+                j -= 1;
+                let was = self.state[j];
+                self.state[j] = UNOWNED;
+                if was == START {
+                    break;
+                }
+            }
+        }
+        for i in offset..offset + size {
+            self.state[i] = if i == offset { START } else { CONT };
+            self.tag[i] = tag;
+            self.droppy[i] = droppy as u8;
+        }
+    }
+
+    pub fn on_read<T>(&mut self, offset: usize, addr: usize) {
+        count(|c| c.reads += 1);
+        if !self.in_bounds::<T>("load", offset) {
+            return;
+        }
+        let size = std::mem::size_of::<T>();
+        if addr % std::mem::align_of::<T>() != 0 {
+            report("misaligned-load", format!("typed load of {} (alignment {}) at an address = {} mod {}", std::any::type_name::<T>(), std::mem::align_of::<T>(), addr % std::mem::align_of::<T>(), std::mem::align_of::<T>()));
+        }
+        let droppy = std::mem::needs_drop::<T>();
+        if size == 0 {
+            count(|c| c.zst_accesses += 1);
+            if droppy {
+                let tag = tag_of::<T>();
+                if let Some(s) = self.zst_slot(offset, tag) {
+                    if s[3] == 0 {
+                        report("read-of-value-not-stored", format!("zero-size {} read at offset {} where none is stored (never written or already moved out)", std::any::type_name::<T>(), offset));
+                    } else {
+                        s[3] -= 1;
+                    }
+                }
+            }
+            return;
+        }
+        if droppy {
+            if let Err(why) = self.holds::<T>(offset) {
+                report("read-of-value-not-stored", format!("{} read at offset {} where no value of that type is stored: {}", std::any::type_name::<T>(), offset, why));
+            }
+        }
+        for i in offset..offset + size {
+            self.state[i] = if droppy { MOVED } else { UNOWNED };
+            self.droppy[i] = 0;
+        }
+    }
+
+    pub fn on_ref<T>(&self, offset: usize, addr: usize, mutable: bool) {
+        count(|c| c.refs += 1);
+        if !self.in_bounds::<T>(if mutable { "mutable reference" } else { "reference" }, offset) {
+            return;
+        }
+        if addr % std::mem::align_of::<T>() != 0 {
+            report("misaligned-reference", format!("reference to {} (alignment {}) at an address = {} mod {}", std::any::type_name::<T>(), std::mem::align_of::<T>(), addr % std::mem::align_of::<T>(), std::mem::align_of::<T>()));
+        }
+        if std::mem::size_of::<T>() == 0 {
+            count(|c| c.zst_accesses += 1);
+            return;
+        }
+        if std::mem::needs_drop::<T>() {
+            if let Err(why) = self.holds::<T>(offset) {
+                report("reference-to-value-not-stored", format!("reference to {} at offset {} where no value of that type is stored: {}", std::any::type_name::<T>(), offset, why));
+            }
+        }
+    }
+
+    pub fn on_buffer_drop(&self) {
+        count(|c| c.buffers_dropped += 1);
+        for i in 0..CAP {
+            if self.state[i] == START && self.droppy[i] != 0 {
+                report("buffer-dropped-owning-value", format!("the record buffer is dropped while the droppable value at offset {} is still stored", i));
+                return;
+            }
+        }
+        for s in &self.zst {
+            if s[3] != 0 {
+                report("buffer-dropped-owning-value", format!("the record buffer is dropped while a zero-size droppable value at offset {} is still stored", s[0] as usize | (s[1] as usize) << 8));
+                return;
+            }
+        }
+    }
+}
+
+fn state_name(s: u8) -> &'static str {
+    match s {
+        UNOWNED => "not owned",
+        START => "the start of a value",
+        CONT => "inside a value",
+        _ => "moved out",
+    }
+}
